@@ -64,24 +64,28 @@ func (pq *pqList) Insert(id interface{}, expireAt time.Time) {
 	pq.insert(id, expireAt)
 }
 func (pq *pqList) insert(id interface{}, expireAt time.Time) {
-	pq.mtx.RLock()
 	deadline := expireAt.Round(time.Second)
+	pq.mtx.RLock()
 	elt, ok := pq.buckets[deadline]
+	if ok {
+		// still under the read lock: Expire cannot pop this bucket (and read its items) meanwhile
+		elt.put(id, expireAt)
+		pq.mtx.RUnlock()
+		return
+	}
 	pq.mtx.RUnlock()
-	if !ok {
-		pq.mtx.Lock()
-		defer pq.mtx.Unlock()
-		if elt, ok = pq.buckets[deadline]; !ok {
-			elt = &bucket{
-				data: []item{
-					{value: id, deadline: expireAt},
-				},
-				deadline: deadline,
-			}
-			pq.buckets[deadline] = elt
-			heap.Push(&pq.pq, elt)
-			return
+	pq.mtx.Lock()
+	defer pq.mtx.Unlock()
+	if elt, ok = pq.buckets[deadline]; !ok {
+		elt = &bucket{
+			data: []item{
+				{value: id, deadline: expireAt},
+			},
+			deadline: deadline,
 		}
+		pq.buckets[deadline] = elt
+		heap.Push(&pq.pq, elt)
+		return
 	}
 	elt.put(id, expireAt)
 }
